@@ -52,7 +52,8 @@ class FuncBase(Contract):
         return [spec.sorted_strict(A['x'])]
 
     def self_inputs(self, A):
-        return {'self': ('obj', self.cls, {k: ('array', k, A[k].n) for k in A})}
+        """(inputs, argspec entry) describing the receiving object for replay on the real class"""
+        return {k: ('array', k, A[k].n) for k in A}, ('obj', self.cls, {k: k for k in A})
 
 
 # =============================================================================================
@@ -71,17 +72,23 @@ class Integral(FuncBase):
         m = X.n
         pre = self.wf(A, n)
         ctx = Ctx(mode=mode, n=n, A=A, a=a, b=b, variant=variant, rec=rec)
+        inputs, selfspec = self.self_inputs(A)
+        ctx.argspec = [selfspec]
         if variant == 'none':
             st.vars['interval'] = None
         elif variant == 'one':
             st.vars['interval'] = (a, b)
             pre += [cmp('<', a, b), cmp('<=', X[0], a), cmp('<=', b, X[m - 1])]
+            inputs.update(a=('real', 'a'), b=('real', 'b'))
+            ctx.argspec.append(('tuple', ['a', 'b']))
         elif variant == 'list2':
             a2, b2 = in_real('a2', values), in_real('b2', values)
             st.vars['interval'] = [(a, b), (a2, b2)]
             pre += [cmp('<', a, b), cmp('<=', X[0], a), cmp('<=', b, X[m - 1]), cmp('<', a2, b2), cmp('<=', X[0], a2), cmp('<=', b2, X[m - 1])]
             ctx.a2, ctx.b2 = a2, b2
-        ctx.inputs = {}
+            inputs.update(a=('real', 'a'), b=('real', 'b'), a2=('real', 'a2'), b2=('real', 'b2'))
+            ctx.argspec.append(('tuplelist', [['a', 'b'], ['a2', 'b2']]))
+        ctx.inputs = inputs
         ctx.argorder = []
         return st, pre, ctx
 
@@ -225,7 +232,9 @@ class Evaluate(FuncBase):
         st.vars['t'] = t
         X = A['x']
         pre = self.wf(A, n) + [cmp('<=', X[0], t), cmp('<=', t, X[n])]
-        ctx = Ctx(mode=mode, n=n, A=A, t=t, inputs={}, argorder=[])
+        inputs, selfspec = self.self_inputs(A)
+        inputs['t'] = ('real', 't')
+        ctx = Ctx(mode=mode, n=n, A=A, t=t, inputs=inputs, argorder=[], argspec=[selfspec, ('val', 't')])
         return st, pre, ctx
 
     def posts(self, st, ret, c):
@@ -275,7 +284,8 @@ class Plottable(FuncBase):
         rec, A = self.make_self(st, mode, n, values)
         if self.kind == 'disc':
             st.vars['averaging_window_size'] = 0
-        ctx = Ctx(mode=mode, n=n, A=A, inputs={}, argorder=[])
+        inputs, selfspec = self.self_inputs(A)
+        ctx = Ctx(mode=mode, n=n, A=A, inputs=inputs, argorder=[], argspec=[selfspec])
         return st, self.wf(A, n), ctx
 
     def posts(self, st, ret, c):
@@ -315,3 +325,60 @@ class DiscPlot(Plottable):
     cls = 'DiscreteFunc'
     fields = ('x', 'y', 'mp')
     kind = 'disc'
+
+
+class DiscSmooth(FuncBase):
+    """C11: DiscreteFunc.get_plottable_data(averaging_window_size=k>0). Multiplicities are concrete small integers
+    (they are counts), values symbolic. size = (k, (mp_0, ..., mp_m-1))"""
+    rel = 'pyspike/DiscreteFunc.py'
+    cls = 'DiscreteFunc'
+    func = 'get_plottable_data'
+    fields = ('x', 'y', 'mp')
+    kind = 'disc'
+
+    def __init__(self):
+        pass
+
+    def setup(self, mode, size, values=None):
+        st = State()
+        k, mps = size
+        m = len(mps)
+        f = {'__local__': False, 'x': in_array(st, 'x', m, mode, values), 'y': in_array(st, 'y', m, mode, values)}
+        f['mp'] = st.alloc([int(v) for v in mps], m, 'mp', local=False)
+        rec = st.new_rec(self.cls, f)
+        st.vars['self'] = rec
+        st.vars['averaging_window_size'] = k
+        A = {kk: st.acc(v) for kk, v in f.items() if kk != '__local__'}
+        X = A['x']
+        pre = [cmp('<=', X[i], X[i + 1]) for i in range(m - 1)]
+        if values is None:
+            values = {}
+        inputs = {'x': ('array', 'x', m), 'y': ('array', 'y', m)}
+        ctx = Ctx(mode=mode, k=k, mps=[int(v) for v in mps], A=A, inputs=inputs, argorder=[],
+                  argspec=[('obj', self.cls, {'x': 'x', 'y': 'y', 'mp': ('const', {'__array__': [float(v) for v in mps]})}), ('const', k)])
+        return st, pre, ctx
+
+    def posts(self, st, ret, c):
+        xp, yp = ret
+        XP, YP = st.acc(xp), st.acc(yp)
+        A, mps, k = c.A, c.mps, c.k
+        m = len(mps)
+        target = (k + 1) * mps[0]
+        out = [('shape', band(cmp('==', XP.n, m), cmp('==', YP.n, m))), ('x', band(*[cmp('==', XP[i], A['x'][i]) for i in range(m)]))]
+        for i in range(m):
+            if mps[i] >= target:
+                exp = arith('/', A['y'][i], mps[i])
+            else:
+                tot, cnt = A['y'][i], mps[i]
+                for rng in (range(i + 1, m), range(i - 1, -1, -1)):      # nearest unit contributions to the right, then to the left
+                    need = target - mps[i]
+                    for j in rng:
+                        if need <= 0:
+                            break
+                        take = min(mps[j], need)
+                        tot = arith('+', tot, arith('/', arith('*', A['y'][j], take), mps[j]))
+                        cnt += take
+                        need -= take
+                exp = arith('/', tot, cnt)
+            out.append(('smoothed[%d]' % i, band(cmp('==', YP[i], split(exp)[0]), YP.fin(i))))
+        return out
